@@ -314,11 +314,15 @@ class Patched:
         import tqdm as _tqdm_mod
         real_pools = set()
         real_pools.add(multiprocessing.Pool)
+        pathos_pool = None
         try:
             from pathos.multiprocessing import ProcessingPool
-            real_pools.add(ProcessingPool)
+            pathos_pool = ProcessingPool
         except Exception:
             pass
+        # a fresh interpreter has no cached pathos pool
+        _pool.SymPathosPool.reset_cache()
+        _pool.SymPathosPool.modules = [m.__dict__ for m in self.mods.values() if isinstance(m, types.ModuleType)]
         for name, m in self.mods.items():
             if not isinstance(m, types.ModuleType):
                 continue
@@ -337,6 +341,8 @@ class Patched:
                     new[k] = plt
                 elif v is _tqdm_mod.tqdm or (getattr(v, '__name__', None) == 'tqdm' and isinstance(v, type)):
                     new[k] = tqdm_stub
+                elif pathos_pool is not None and v is pathos_pool:
+                    new[k] = _pool.SymPathosPool
                 elif isinstance(v, type) and v in real_pools:
                     new[k] = _pool.SymPool
                 elif callable(v) and getattr(v, '__name__', None) == 'Pool' and getattr(v, '__self__', None) is not None:
